@@ -576,7 +576,7 @@ def gen_legacy_scenario(r, kind=None):
         k["adapt_step_size"] = r.choice([True, False, False]) if ss is None else ss
     if kind == "RegularizedLinearRTO":
         k.pop("maxit", None)        # legacy constructor hard-codes maxit=100
-    if kind == "LinearRTO" and sc["target"].get("prior") == "gauss" and not sc["target"].get("likelihoods") and r.random() < 0.3:
+    if kind == "LinearRTO" and sc["target"].get("prior") == "gauss" and not sc["target"].get("likelihoods") and r.random() < 0.7:
         sc["target"]["tuple_form"] = True
         sc["target"]["model"] = "matrix"
     if kind == "CWMH" and isinstance(k.get("scale"), list):
